@@ -143,7 +143,7 @@ def run(ck):
 def _bulk(ck, pg, pgsql, rng, thorough, files):
     """A store holding more isotherms than any internal batch size: everything stored is retrievable, selectable and deletable."""
     path = files.new()
-    n = 260 if thorough else 130
+    n = ck.n(130, 260)
     for t in ("isotherm", "pointisotherm", "modelisotherm"):
         pgsql.isotherm_type_to_db({"type": t}, db_path=path, verbose=False)
     pgsql.material_to_db(pg.Material("pgv-bulk"), db_path=path, verbose=False)
@@ -172,8 +172,8 @@ def _bulk(ck, pg, pgsql, rng, thorough, files):
 
 
 def _run(ck, pg, pgsql, BaseIsotherm, rng, thorough, files):
-    nh = 120 if thorough else 25
-    maxops = 60 if thorough else 25
+    nh = ck.n(25, 120)
+    maxops = ck.n(25, 60)
     lines, plan = [], []
     n_dis = 0
     records = []
